@@ -80,6 +80,13 @@ struct Spec {
     /// `let name = init;` statements (checked verbatim, compact) that are not translated: the
     /// variable is opaque, i.e. only usable through the name map
     opaque_lets: &'static [(&'static str, &'static str)],
+    /// effect statements: Rust expression statement (compact, without `;`) ↦ (mutable local that
+    /// is updated, Lean term of its new value)
+    effects: &'static [(&'static str, &'static str, &'static str)],
+    /// the decision lives in a closure: the function body must be exactly
+    /// `<prefix>|<param>|{ BODY }<suffix>` (compact); BODY is translated, `<param>` is a mutable local
+    /// bound by the Lean binder of the same name
+    wrapper: Option<(&'static str, &'static str, &'static str)>,
     /// what the abstraction hides (printed into the header)
     note: &'static str,
 }
@@ -109,6 +116,8 @@ const SPECS: &[Spec] = &[
         structs: &[],
         types: &[],
         opaque_lets: &[],
+        effects: &[],
+        wrapper: None,
         note: "`self` is only consulted through `is_currently_aggregating()` (a Bool parameter).",
     },
     Spec {
@@ -139,6 +148,8 @@ const SPECS: &[Spec] = &[
         structs: &[],
         types: &[],
         opaque_lets: &[],
+        effects: &[],
+        wrapper: None,
         note: "deltas are abstract (`Δ`); the two wall-clock tests of a delta are parameter functions \
                `younger`/`older : Δ → seconds → Bool`; the four fields of `RrdpUpdatesConfig` are parameters.",
     },
@@ -166,6 +177,8 @@ const SPECS: &[Spec] = &[
         structs: &[],
         types: &[],
         opaque_lets: &[],
+        effects: &[],
+        wrapper: None,
         note: "`Time` and `Duration` are whole seconds (`Int`); `Time - Duration` and `Time > Time` are the integer operations; \
                the wall clock `Time::now()` is a parameter; `self.next_update()` is the getter of `self.revision.next_update`.",
     },
@@ -194,6 +207,8 @@ const SPECS: &[Spec] = &[
         structs: &[],
         types: &[],
         opaque_lets: &[],
+        effects: &[],
+        wrapper: None,
         note: "key object sets are abstract (`S`), `KeyObjectSet::requires_reissuance` is the parameter `due`; the payload of \
                `ResourceClassKeyState` is flattened into the three set parameters (each arm only reads the sets its variant has).",
     },
@@ -234,6 +249,8 @@ const SPECS: &[Spec] = &[
             ("Vec<RoaPayload>", "List π"),
         ],
         opaque_lets: &[],
+        effects: &[],
+        wrapper: None,
         note: "ROAs (`ρ`), route origins (`ω`) and payloads (`π`) are abstract; AS numbers and prefix lengths are `Nat` \
                (`AsNumber::AS0` = 0); what the loop reads of a ROA are parameter functions (`roa_covers r` = \
                `r.prefix.covers(origin.prefix)`); of the origin it reads its AS number and prefix length (parameters).",
@@ -275,12 +292,56 @@ const SPECS: &[Spec] = &[
             ("resources_diff", "new_resources.difference(&self.incoming_cert.resources)"),
             ("not_after", "self.incoming_cert.validity.not_after()"),
         ],
+        effects: &[],
+        wrapper: None,
         note: "FLOATS: the two `f64` ratio tests `e/c < 0.9`, `e/c > 1.1` are NOT translated but mapped to the integer \
                predicates `10·e < 9·c`, `10·e > 11·c` of the model (they are only evaluated for `c > 0`, where the exact \
                rational comparison is the same; the rounding of the f64 quotient is outside the translation and sampled at \
                the boundaries by the `pure` stream).  Times are unix seconds (`Int`); the certificate enters through three \
                Booleans (id-ad-caRepository ends with `/`; `new_resources.difference(cert.resources).is_empty()`; \
                `cert.resources == ResourceSet::all()`) and its not-after time.",
+    },
+    Spec {
+        id: "C09",
+        file: "src/commons/queue.rs",
+        ty: "Queue",
+        method: "schedule_task",
+        lean: "Queue.schedule_task",
+        sig: "&self,name:&Ident,value:&serde_json::Value,timestamp_millis:Option<u128>,mode:ScheduleMode->Result<(),Error>",
+        binders: "{σ κ : Type} (delete_pending delete_running : σ → κ → σ) (store_pending : σ → Nat → σ) (now : Nat) \
+                  (store : σ) (timestamp_millis : Option Nat) (mode : ScheduleMode) (pending_found running_found : Option (κ × Nat))",
+        args: "delete_pending delete_running store_pending now store timestamp_millis mode pending_found running_found",
+        ret: "σ",
+        num: Num::Nat,
+        names: &[
+            ("mode", "mode"),
+            ("timestamp_millis.unwrap_or_else(||{Self::now()})", "(timestamp_millis.getD now)"),
+            ("self.get_storage_key_and_time(name,store,Self::pending_scope())", "pending_found"),
+            ("self.get_storage_key_and_time(name,store,Self::running_scope())", "running_found"),
+            ("Ok(())", "store"),
+        ],
+        methods: &[],
+        state_ty: &[],
+        elem_ty: "",
+        enums: &[("ScheduleMode", "src/commons/queue.rs", "")],
+        structs: &[],
+        types: &[],
+        opaque_lets: &[],
+        effects: &[
+            ("store.delete(Self::pending_scope(),&pending)?", "store", "delete_pending store pending"),
+            ("store.delete(Self::running_scope(),&running)?", "store", "delete_running store running"),
+            (
+                "store.store(Self::pending_scope(),&Self::task_storage_key(name,Some(timestamp)),value)?",
+                "store",
+                "store_pending store timestamp",
+            ),
+        ],
+        wrapper: Some(("self.store.execute(Self::lock_scope(),", "store", ")?;Ok(())")),
+        note: "the key-value transaction is abstract (`σ`, keys `κ`): the three store calls are parameter functions on it \
+               and the function returns the final store (the closure's `Ok(())`); errors of the store (`?`) are outside the \
+               translation; the two look-ups `get_storage_key_and_time` (first key with that name in `list_keys` order, with \
+               its time stamp) are parameters, both made before any change; `Self::now()` is the parameter `now`; the stored \
+               entry is (name, value) under `timestamp` – name and value are fixed inside `store_pending`.",
     },
 ];
 
@@ -300,6 +361,8 @@ enum Ctl {
 enum Item<'a> {
     S(&'a syn::Stmt),
     E(&'a syn::Expr),
+    /// `let <name> = <the value of the preceding items>;`
+    Bind(&'a str),
 }
 
 struct Tr<'a> {
@@ -310,6 +373,7 @@ struct Tr<'a> {
     opaque: Vec<String>,
     /// Lean lines of the immutable `let`s seen before the loop (re-emitted in `.loop`/`.after`)
     prefix: Vec<String>,
+    prefix_err: Option<String>,
     /// names of the loop state (the `let mut` variables in scope at the `for`)
     state: Vec<String>,
     in_loop: bool,
@@ -442,6 +506,8 @@ impl<'a> Tr<'a> {
                     ("min", [a]) => Ok(format!("(min {} {})", self.atom(&m.receiver, ind)?, self.atom(a, ind)?)),
                     ("max", [a]) => Ok(format!("(max {} {})", self.atom(&m.receiver, ind)?, self.atom(a, ind)?)),
                     ("into", []) => self.expr(&m.receiver, ind),
+                    ("is_none", []) => Ok(format!("{}.isNone", self.atom(&m.receiver, ind)?)),
+                    ("is_some", []) => Ok(format!("{}.isSome", self.atom(&m.receiver, ind)?)),
                     _ => Err(format!("method call `{c}` (not in the method map)")),
                 }
             }
@@ -683,13 +749,31 @@ impl<'a> Tr<'a> {
                 if name == "tail" {
                     return Err("local named `tail` (reserved by the loop translation)".into());
                 }
-                let v = self.expr(&init.expr, ind + 2)?;
+                let (nl, no) = (self.locals.len(), self.opaque.len());
+                let v = match self.expr(&init.expr, ind + 2) {
+                    Ok(v) => v,
+                    Err(e) => {
+                        // an initialiser with effects / early exits (`let x = match … { arms that assign }`):
+                        // the rest of the sequence moves into every branch, after `let x := <branch value>`
+                        self.locals.truncate(nl);
+                        self.opaque.truncate(no);
+                        if mutable || self.seen_loop || ctl == Ctl::Value
+                            || !matches!(&*init.expr, syn::Expr::Match(_) | syn::Expr::If(_) | syn::Expr::Block(_))
+                        {
+                            return Err(e);
+                        }
+                        let mut items = vec![Item::Bind(&name)];
+                        items.extend_from_slice(rest);
+                        return self.stmt_expr(&init.expr, false, &items, ctl, ind).map_err(|e2| format!("{e2} (as a pure value: {e})"));
+                    }
+                };
                 let line = format!("let {} := {v}", lean_ident(&name));
                 if !mutable && !self.seen_loop {
                     // must not depend on a mutable local (it is re-emitted inside the loop)
                     for (m, is_mut) in &self.locals {
                         if *is_mut && mentions(&init.expr, m) {
-                            return Err(format!("`let {name}` before the loop depends on mutable `{m}`"));
+                            // only a problem when a loop follows (the `let` is re-emitted inside it)
+                            self.prefix_err.get_or_insert(format!("`let {name}` before the loop depends on mutable `{m}`"));
                         }
                     }
                     self.prefix.push(line.clone());
@@ -700,6 +784,33 @@ impl<'a> Tr<'a> {
             }
             Item::S(syn::Stmt::Expr(e, semi)) => self.stmt_expr(e, semi.is_some(), rest, ctl, ind),
             Item::E(e) => self.stmt_expr(e, false, rest, ctl, ind),
+            Item::Bind(n) => Err(format!("block that initialises `{n}` ends without a value")),
+        }
+    }
+
+    /// Binders of `Some(<pat>)`: an identifier, `_`, or a tuple of those; they become locals.
+    fn some_binder(&mut self, p: &syn::Pat) -> R {
+        match p {
+            syn::Pat::Wild(_) => Ok("_".into()),
+            syn::Pat::Ident(i) if i.by_ref.is_none() && i.mutability.is_none() && i.subpat.is_none() => {
+                let n = i.ident.to_string();
+                if self.name(&n).is_some() || self.local(&n).is_some() || self.opaque.contains(&n) || n == "tail" {
+                    return Err(format!("binder `{n}` shadows a name already in scope"));
+                }
+                self.locals.push((n.clone(), false));
+                Ok(lean_ident(&n))
+            }
+            syn::Pat::Tuple(t) => {
+                let mut parts = Vec::new();
+                for el in &t.elems {
+                    if matches!(el, syn::Pat::Tuple(_)) {
+                        return Err(format!("nested tuple pattern `{}`", compact(p)));
+                    }
+                    parts.push(self.some_binder(el)?);
+                }
+                Ok(format!("({})", parts.join(", ")))
+            }
+            _ => Err(format!("pattern `{}` inside `Some(…)`", compact(p))),
         }
     }
 
@@ -708,6 +819,11 @@ impl<'a> Tr<'a> {
             syn::Expr::Path(p) if p.path.get_ident().is_some() => p.path.get_ident().unwrap().to_string(),
             _ => return Err(format!("assignment to `{}`", compact(lhs))),
         };
+        self.assign_named(&x, rhs, rest, ctl, ind)
+    }
+
+    fn assign_named(&mut self, x: &str, rhs: String, rest: &[Item], ctl: Ctl, ind: usize) -> R {
+        let x = x.to_string();
         match self.local(&x) {
             Some(true) => {}
             _ => return Err(format!("assignment to `{x}` which is not a `let mut` local")),
@@ -725,8 +841,40 @@ impl<'a> Tr<'a> {
     fn stmt_expr(&mut self, e: &syn::Expr, has_semi: bool, rest: &[Item], ctl: Ctl, ind: usize) -> R {
         use syn::Expr as E;
         let c = compact(e);
+        if let Some((_, var, rhs)) = self.spec.effects.iter().find(|(k, _, _)| *k == c) {
+            if !has_semi && !rest.is_empty() {
+                return Err(format!("effect `{c}` used as a value"));
+            }
+            return self.assign_named(var, rhs.to_string(), rest, ctl, ind);
+        }
         match e {
             E::Macro(m) if is_log(&m.mac) => self.seq(rest, ctl, ind),
+            E::If(i) if matches!(&*i.cond, E::Let(_)) => {
+                let E::Let(l) = &*i.cond else { unreachable!() };
+                // `if let Some(<binders>) = <expr> { A } [else { B }]`
+                let inner = match &*l.pat {
+                    syn::Pat::TupleStruct(t) if compact(&t.path) == "Some" && t.elems.len() == 1 => &t.elems[0],
+                    p => return Err(format!("`if let {}` (only `Some(…)` is in the fragment)", compact(p))),
+                };
+                let (nl, no) = (self.locals.len(), self.opaque.len());
+                let scrut = self.expr(&l.expr, ind)?;
+                let binder = self.some_binder(inner)?;
+                let then_items = Self::block_items(&i.then_branch, rest);
+                let t = self.seq(&then_items, ctl, ind + 4)?;
+                self.locals.truncate(nl);
+                self.opaque.truncate(no);
+                let else_items: Vec<Item> = match &i.else_branch {
+                    None => rest.to_vec(),
+                    Some((_, eb)) => match &**eb {
+                        E::Block(b) if b.label.is_none() => Self::block_items(&b.block, rest),
+                        _ => return Err(format!("else branch `{}` of an `if let`", compact(&**eb))),
+                    },
+                };
+                let el = self.seq(&else_items, ctl, ind + 4)?;
+                self.locals.truncate(nl);
+                self.opaque.truncate(no);
+                Ok(format!("{p}match {scrut} with\n{p}| some {binder} =>\n{t}\n{p}| none =>\n{el}", p = pad(ind)))
+            }
             E::If(i) => {
                 let cond = self.prop(&i.cond, ind)?;
                 let (nl, no) = (self.locals.len(), self.opaque.len());
@@ -752,7 +900,7 @@ impl<'a> Tr<'a> {
                 Ok(format!("{p}if {cond} then\n{t}\n{p}else\n{el}", p = pad(ind)))
             }
             E::Match(m) => {
-                if !rest.is_empty() {
+                if !rest.is_empty() && !matches!(rest[0], Item::Bind(_)) {
                     return Err("`match` followed by further statements".into());
                 }
                 let scrut = self.expr(&m.expr, ind)?;
@@ -764,8 +912,12 @@ impl<'a> Tr<'a> {
                     let (nl, no) = (self.locals.len(), self.opaque.len());
                     let p = self.pat(&arm.pat)?;
                     let body = match &*arm.body {
-                        E::Block(b) if b.label.is_none() => self.seq(&Self::block_items(&b.block, &[]), ctl, ind + 4)?,
-                        b => self.seq(&[Item::E(b)], ctl, ind + 4)?,
+                        E::Block(b) if b.label.is_none() => self.seq(&Self::block_items(&b.block, rest), ctl, ind + 4)?,
+                        b => {
+                            let mut items = vec![Item::E(b)];
+                            items.extend_from_slice(rest);
+                            self.seq(&items, ctl, ind + 4)?
+                        }
                     };
                     self.locals.truncate(nl);
                     self.opaque.truncate(no);
@@ -779,6 +931,10 @@ impl<'a> Tr<'a> {
                 self.locals.truncate(nl);
                 self.opaque.truncate(no);
                 r
+            }
+            E::Block(b) if b.label.is_none() && matches!(rest.first(), Some(Item::Bind(_))) => {
+                // the block's locals stay in scope (shadowing is rejected anyway)
+                self.seq(&Self::block_items(&b.block, rest), ctl, ind)
             }
             E::Return(r) => {
                 if ctl == Ctl::Value {
@@ -816,6 +972,16 @@ impl<'a> Tr<'a> {
             }
             E::ForLoop(f) => self.for_loop(f, rest, ctl, ind),
             E::While(_) | E::Loop(_) => Err("`while` / `loop`".into()),
+            _ if matches!(rest.first(), Some(Item::Bind(_))) => {
+                let Some(Item::Bind(n)) = rest.first() else { unreachable!() };
+                if has_semi {
+                    return Err(format!("block that initialises `{n}` ends with `{c};` (unit value)"));
+                }
+                let v = self.expr(e, ind + 2)?;
+                self.locals.push((n.to_string(), false));
+                let r = self.seq(&rest[1..], ctl, ind)?;
+                Ok(format!("{}let {} := {v}\n{r}", pad(ind), lean_ident(n)))
+            }
             _ => {
                 // a value
                 if !rest.is_empty() {
@@ -848,6 +1014,9 @@ impl<'a> Tr<'a> {
         }
         if self.spec.elem_ty.is_empty() {
             return Err("loop in a function whose spec has no element type".into());
+        }
+        if let Some(e) = &self.prefix_err {
+            return Err(e.clone());
         }
         self.seen_loop = true;
         self.state = self.locals.iter().filter(|(_, m)| *m).map(|(n, _)| n.clone()).collect();
@@ -1007,12 +1176,38 @@ fn gen_fn(repo: &Path, spec: &Spec) -> R {
         locals: Vec::new(),
         opaque: Vec::new(),
         prefix: Vec::new(),
+        prefix_err: None,
         state: Vec::new(),
         in_loop: false,
         seen_loop: false,
         aux: Vec::new(),
     };
-    let items: Vec<Item> = f.block.stmts.iter().map(Item::S).collect();
+    let block: &syn::Block = match spec.wrapper {
+        None => &f.block,
+        Some((prefix, param, suffix)) => {
+            struct First<'a>(Option<&'a syn::ExprClosure>);
+            impl<'ast> syn::visit::Visit<'ast> for First<'ast> {
+                fn visit_expr_closure(&mut self, c: &'ast syn::ExprClosure) {
+                    if self.0.is_none() {
+                        self.0 = Some(c);
+                    }
+                }
+            }
+            let mut fc = First(None);
+            syn::visit::Visit::visit_block(&mut fc, &f.block);
+            let cl = fc.0.ok_or("no closure found in the body")?;
+            let syn::Expr::Block(b) = &*cl.body else {
+                return Err("the closure body is not a block".into());
+            };
+            let expected = format!("{{{prefix}|{param}|{}{suffix}}}", compact(&b.block));
+            if compact(&f.block) != expected {
+                return Err(format!("the code around the closure changed (expected `{prefix}|{param}|{{…}}{suffix}`)"));
+            }
+            tr.locals.push((param.to_string(), true));
+            &b.block
+        }
+    };
+    let items: Vec<Item> = block.stmts.iter().map(Item::S).collect();
     let body = tr.seq(&items, Ctl::Fn, 2)?;
     let mut out = String::new();
     for a in &tr.aux {
@@ -1056,6 +1251,12 @@ pub fn run(repo: &Path, table: &str) -> String {
         }
         for (n, i) in s.opaque_lets {
             out.push_str(&format!("    `let {n} = {i};` is not translated; `{n}` is only used through the entries above\n"));
+        }
+        for (k, var, v) in s.effects {
+            out.push_str(&format!("    statement `{k};` ↦ `{var} := {v}`\n"));
+        }
+        if let Some((pre, param, suf)) = s.wrapper {
+            out.push_str(&format!("    only the closure body of `{pre}|{param}|{{…}}{suf}` is translated; `{param}` is a mutable local bound by the parameter of the same name\n"));
         }
         for ((r, m), v) in s.methods {
             out.push_str(&format!("    `{r}.{m}(args…)` ↦ `{v} args…`\n"));
